@@ -15,6 +15,9 @@ static const char *gp_path;
 static size_t g_cwd_true_len;  /* length of the real current directory */
 static size_t g_cwd_len;       /* what the last successful getcwd wrote */
 static int g_getcwd_calls;
+static char g_cwd_last;        /* last character of the current directory as getcwd wrote it */
+static int g_copy_calls;       /* memcpy calls of path_prepend_cwd */
+static const void *g_copy_dst; /* where the last one wrote */
 
 static size_t verif_strlen(const char *s)
 {
@@ -26,6 +29,8 @@ static void *verif_memcpy(void *dst, const void *src, size_t n)
 {
   V_ASSERT("C03/path_prepend_cwd.copy_stays_inside_the_buffer", n == 0 || __CPROVER_w_ok(dst, n));
   V_ASSERT("C03/path_prepend_cwd.copies_the_whole_path", src == (const void *) gp_path && n == gp_len);
+  if (g_copy_calls < 100) g_copy_calls++;
+  g_copy_dst = dst;
   return dst;
 }
 
@@ -54,6 +59,7 @@ char *verif_getcwd(char *buf, size_t size)
   }
   /* only the bytes path_prepend_cwd looks at are modelled */
   buf[g_cwd_true_len - 1] = nondet_bool() ? '/' : 'x';
+  g_cwd_last = buf[g_cwd_true_len - 1];
   buf[g_cwd_true_len] = '\0';
   g_cwd_len = g_cwd_true_len;
   return buf;
@@ -77,8 +83,10 @@ void harness(void)
     size_t l = g_cwd_true_len;
     bool had_slash = r[l - 1] == '/';
     size_t start = had_slash ? l : l + 1;
+    V_ASSERT("C03/path_prepend_cwd.current_directory_left_intact", r[l - 1] == g_cwd_last);
     V_ASSERT("C03/path_prepend_cwd.cwd_then_one_slash_then_path", had_slash || r[l] == '/');
     V_ASSERT("C03/path_prepend_cwd.nul_terminated_right_after_the_path", r[start + gp_len] == '\0');
+    V_ASSERT("C03/path_prepend_cwd.path_copied_once_right_after_the_slash", g_copy_calls == 1 && g_copy_dst == (const void *) (r + start));
     V_ASSERT("C04/path_prepend_cwd.success_has_no_failed_call", g.e.faults == faults0);
     if (g_getcwd_calls > 1) V_CANARY("path_prepend.buffer_grown_reachable");
     if (gp_len > 100000) V_CANARY("path_prepend.long_path_reachable");
